@@ -1,6 +1,6 @@
 /* @harness c09.oneshot_frame
  * @props C09 C03 C04 C05
- * @tier quick
+ * @tier thorough
  * @functions ZSTD_decompressFrame ZSTD_frameHeaderSize_internal ZSTD_decodeFrameHeader ZSTD_getFrameHeader_advanced ZSTD_getcBlockSize ZSTD_copyRawBlock ZSTD_setRleBlock
  * @bounds the one-shot frame decoder on ARBITRARY bytes: input size every value 0..NB (= 15; tail-aligned: any over-read leaves the object), every byte arbitrary after the standard magic number, so every frame header descriptor, window descriptor, content-size field, up to 3 blocks of any type, optional checksum - complete, truncated at any byte, or followed by extra bytes; destination capacity every value 0..16 (tail slice); checksum verification on or ignored
  * @bounds decided against a reference frame walk written from doc/zstd_compression_format.md: success only for a complete well-formed frame (a truncated frame, a reserved block type, a block larger than the block size limit, a wrong content size or a wrong checksum never decode successfully); on success the decoder consumed exactly the frame's bytes (extra bytes untouched), produced exactly the sum of the regenerated block sizes = the content-size field when present, raw blocks copy the source bytes and RLE blocks repeat their byte (arbitrary output index); nothing is written past the destination capacity
